@@ -142,3 +142,24 @@ def logical_param_skeletons(rng):
             out.append(f"$[?count(@[?bl({x})]) > 0]")
             out.append(f"$[?!bl({x})]")
     return list(dict.fromkeys(out))
+
+
+# built-in functions with every operand shape as argument, in every position (well-typed or not: a text that should
+# not compile but does is still evaluated by C13)
+TYPED_SHAPES = ["1", "'s'", "null", "@.a", "$.x[0]", "@", "@.*", "@..a", "@[0,1]", "$[*]", "length(@)", "count(@.*)", "value(@.*)",
+                "match(@.a, 'b')", "search(@, 'a')", "@.a == 1", "1 == 1", "@.a && @.b", "!@.a", "(@.a)", "(@.a == 1)", "@[?@.a]"]
+TYPED_POSITIONS = ["$[?{c}]", "$[?{c} == 1]", "$[?1 != {c}]", "$[?length({c}) == 1]", "$[?count({c}) == 1]", "$[?value({c}) == 1]",
+                   "$[?match({c}, 'a')]", "$[?search('a', {c})]", "$[?!{c}]", "$[?{c} && @.a]", "$[?({c})]", "$[?@[?{c}]]",
+                   "$[?{c} == {c}]", "$[?@.a || ({c} && @.b)]"]
+
+
+def typed_builtin_texts():
+    out = []
+    for fn in ("length", "count", "value", "match", "search"):
+        for sh in TYPED_SHAPES:
+            args = sh if fn in ("length", "count", "value") else f"{sh}, 'a'"
+            for pos in TYPED_POSITIONS:
+                out.append(pos.format(c=f"{fn}({args})"))
+            if fn in ("match", "search"):
+                out.append(f"$[?{fn}('a', {sh})]")
+    return list(dict.fromkeys(out))
